@@ -869,6 +869,22 @@ def main(repo, lean):
     need(re.search(r"d->content_length\s*=\s*conn_->env_content_length\(\)\s*;\s*if\s*\(\s*d->content_length\s*==\s*0\s*\)\s*d->ready\s*=\s*true\s*;", function_body(req, r"bool\s+request::prepare\s*\(\s*\)\s*\{")), "request::prepare")
     w("")
 
+    # ============================================================ cgi_forwarder (forwarding.rules): buffer sizing
+    w("/-! ## cgi_forwarder (src/cgi_api.cpp): the buffer a forwarded request body is relayed through -/")
+    m = need(re.search(r"void\s+on_header_sent\s*\([^)]*\)\s*\{", cgi), "cgi_forwarder::on_header_sent")
+    ohs = function_body(cgi, r"void\s+on_header_sent\s*\(")
+    need(re.search(r"content_length_\s*=\s*conn_->env_content_length\(\)\s*;", ohs), "on_header_sent: content_length_")
+    m = need(re.search(r"if\s*\(\s*content_length_\s*>\s*0\s*\)\s*\{\s*post_\.resize\(\s*(.*?)\s*,\s*0\s*\)\s*;\s*write_post\(\)\s*;", ohs, re.S), "on_header_sent: post_.resize")
+    expr = re.sub(r"std::(max|min)\s*<[^>]*>\s*\(", lambda mm: ("MAXF(" if mm.group(1) == "max" else "MINF("), m.group(1))
+    expr = re.sub(r"std::(max|min)\s*\(", lambda mm: ("MAXF(" if mm.group(1) == "max" else "MINF("), expr)
+    w("/-- `post_.resize(…,0)` in `on_header_sent` for `content_length_ > 0` (`long long`) -/")
+    w(f"def fwdPostBuffer (content_length_ : Int) : Int := {c_to_lean(expr, funcs={'MAXF': 'max', 'MINF': 'min'})}")
+    wp = function_body(cgi, r"void\s+write_post\s*\(\s*\)")
+    need(re.search(r"if\s*\(\s*content_length_\s*>\s*0\s*\)\s*\{\s*if\s*\(\s*content_length_\s*<\s*\(long long\)\(post_\.size\(\)\)\s*\)\s*\{\s*post_\.resize\(content_length_\)\s*;\s*\}\s*conn_->async_read_some\(&post_\.front\(\),post_\.size\(\),", wp), "write_post shape")
+    m = need(re.search(r"response_\.resize\((\d+)\)\s*;\s*read_response\(\)\s*;", ohs), "on_header_sent: response_.resize")
+    w(f"def fwdResponseBuffer : Nat := {m.group(1)}")
+    w("")
+
     # ============================================================ callbacks of the protocol independent layer
     w("/-! ## callbacks of the protocol independent layer (src/cgi_api.cpp, src/http_context.cpp, src/http_request.cpp) -/")
     ct = CgiTranslator()
